@@ -66,11 +66,14 @@ func (x *Exec) callCommon(fr *frame, st *State, cc *ssa.CallCommon, fnv Value, a
 			for _, m := range x.fc.CbModifies {
 				x.havocPathExpr(fr, st, m, x.loopOpts(fr, nil))
 			}
+			res := x.freshOpaqueOrValueSig(cc.Signature(), "callback")
+			co := *x.loopOpts(fr, nil)
+			co.result = res // `result` in callback-ensures is the value returned by the callback
 			for _, c := range x.fc.CbEnsures {
-				x.vc.assume(mkImplies(st.reach, x.evalBoolClause(fr, st, c, x.loopOpts(fr, nil))), "callback contract")
+				x.vc.assume(mkImplies(st.reach, x.evalBoolClause(fr, st, c, &co)), "callback contract")
 			}
 			x.vc.note("calls through function values in " + fr.name + " are governed by the unit's callback contract (assumed for the callbacks, which are verified separately)")
-			return x.freshOpaqueOrValueSig(cc.Signature(), "callback")
+			return res
 		}
 		return x.externCall(fr, st, "dynamic call", cc.Signature(), args, site)
 	}
